@@ -4,7 +4,7 @@ import math
 
 import numpy as np
 
-from vfw import observe
+from vfw import gen, observe
 
 ID = "C11"
 EXHAUSTIVE = True
@@ -119,6 +119,14 @@ def case_small(ctx, p):
     o = tuple(p["o"])
     nx, ny = p["nx"], p["ny"]
     img = (np.arange(nx)[:, None] * 100 + np.arange(ny)[None, :]).astype(np.int64)   # img[x, y] = 100 x + y
+    k = (nx * 8 + ny + VALID.index(o)) % 4
+    if k == 1:
+        img = img.astype(np.float32)
+    elif k == 2:
+        img = np.asfortranarray(img.astype(np.uint16))
+    elif k == 3:
+        img = np.ascontiguousarray(np.repeat(img, 2, axis=1))[:, ::2]          # a strided view
+    keep = img.copy()
     if nx != ny or o != (1, 0, 0, 1):
         mon.nontriv(o, nx, ny)
     mon.config("orientation:%s" % (o,))
@@ -128,13 +136,15 @@ def case_small(ctx, p):
         back = f(fw, *o, flipdir="inverse")
         ok = back.shape == img.shape and np.array_equal(back, img)
         mon.check("exhaustive:flip then inverse is identity", ok, observed=None if ok else back, expected=None if ok else img, detail=fname)
-    timg = D.trans_orientation(img.copy(), *o)
+    timg = D.trans_orientation(img, *o)
+    same = bool(np.array_equal(img, keep))
+    mon.check("pure:image functions leave the input image as it was", same, observed=None if same else "input modified", detail={"o": o, "shape": [nx, ny]})
     bad = []
     rt1 = []
     rt2 = []
     for x in range(nx):
         for y in range(ny):
-            c = D.xy_to_detyz([x, y], *o, dety_size=ny, detz_size=nx)
+            c = D.xy_to_detyz(gen.as_form([x, y], x + y), *o, dety_size=ny, detz_size=nx)
             c = np.asarray(c)
             iy, iz = int(round(float(c[0]))), int(round(float(c[1])))
             exact = float(c[0]) == iy and float(c[1]) == iz
